@@ -14,18 +14,25 @@ import (
 
 	"verif/mc/explore"
 	"verif/mc/gram"
+	"verif/mc/impl"
 	"verif/mc/ref"
 )
 
 // Case is the replayable unit: one grammar and one input (all start positions
 // and the warm/cold history are re-run on replay).
 type Case struct {
-	Grammar string `json:"grammar"`
-	Input   string `json:"input"`
-	Note    string `json:"note,omitempty"`
+	Placement int    `json:"placement,omitempty"` // impl.Placement under which the case was run
+	Grammar   string `json:"grammar"`
+	Input     string `json:"input"`
+	Note      string `json:"note,omitempty"`
 }
 
-func (c Case) String() string { return fmt.Sprintf("%s on %q", c.Grammar, c.Input) }
+func (c Case) String() string {
+	if c.Placement != 0 {
+		return fmt.Sprintf("%s on %q (file placement %d)", c.Grammar, c.Input, c.Placement)
+	}
+	return fmt.Sprintf("%s on %q", c.Grammar, c.Input)
+}
 
 var ab = []byte{'a', 'b'}
 
@@ -117,7 +124,39 @@ func parseCase(raw json.RawMessage) (Case, *gram.Grammar, error) {
 		return c, nil, err
 	}
 	g, err := gram.Parse(c.Grammar)
+	impl.Placement = c.Placement
 	return c, g, err
+}
+
+// eachGrammarPlaced runs eachGrammar with the file alone over the full spaces, and then again with the file as
+// second file of a set (reader created after / before the file was added) over the seed corpus and the grammars
+// of at most 3 nodes: what the reader and the file know about their own position must not matter.
+func eachGrammarPlaced(env *explore.Env, res *explore.Result, specs []spaceSpec, seeds []Case,
+	fn func(g *gram.Grammar, inputs [][]byte, fromSeed bool)) {
+	defer func() { impl.Placement = 0 }()
+	for pl := 0; pl <= 2; pl++ {
+		impl.Placement = pl
+		use := specs
+		if pl > 0 {
+			use = nil
+			for _, s := range specs {
+				if s.sp.Min <= 3 && s.sp.FixedShared == nil {
+					c := *s.sp
+					if c.Max > 3 {
+						c.Max = 3
+					}
+					s2 := s
+					s2.sp = &c
+					use = append(use, s2)
+				}
+			}
+		}
+		before := res.Counters["states"]
+		eachGrammar(env, res, use, seeds, fn)
+		if pl > 0 {
+			res.Add(fmt.Sprintf("states_with_file_placement_%d", pl), res.Counters["states"]-before)
+		}
+	}
 }
 
 func sortedKeys(m map[string]bool) []string {
